@@ -8,6 +8,7 @@ import (
 	"github.com/aclements/go-moremath/graph/graphalg"
 	"verif.local/harness/refmodel"
 	"verif.local/harness/simenv"
+	"verif.local/simhook"
 )
 
 // drawGraph draws a graph family and size; returns adjacency and a label.
@@ -67,6 +68,23 @@ func (c *ctx) drawGraph() (refmodel.Adj, string) {
 				}
 			}
 			c.probe("graph_with_hub_node_outdegree_ge_9")
+		}
+		if n >= 4 && g.Chance(1, 25) {
+			// two mega hubs: adjacency lists of a thousand-plus entries (parallel edges
+			// by the hundred) into an overlapping but different set of targets
+			for h := 0; h < 2; h++ {
+				u := g.Intn(n)
+				miss := g.Intn(n) // a target this hub does not have
+				for k := g.Range(1030, 2600); k > 0; k-- {
+					v := g.Intn(n)
+					if v == miss {
+						continue
+					}
+					adj[u] = append(adj[u], v)
+				}
+			}
+			hubs += 2
+			c.probe("graph_with_two_mega_hubs")
 		}
 		return adj, fmt.Sprintf("random(n=%d,dens=%d,hubs=%d)", n, dens, hubs)
 	}
@@ -258,9 +276,9 @@ func (c *ctx) session() {
 	if n >= 32768 {
 		c.probe("traversal_graph_with_id_ge_32768")
 	}
-	for k := 0; k < nops && c.viol == nil; k++ {
+	for k := 0; k < nops && c.viol == nil && !simhook.OverBudget(); k++ {
 		op := g.Pick(3, 3, 3, 4, 2, 2, 2, 2, 2)
-		if n > 5000 && op >= 4 && op != 7 {
+		if n > 5000 && op >= 4 && op != 7 && op != 8 {
 			op = g.Intn(4)
 		}
 		switch op {
@@ -928,10 +946,42 @@ func (c *ctx) equal(adj refmodel.Adj) {
 	for u := range adj {
 		other[u] = append([]int(nil), adj[u]...)
 	}
-	variant := c.g.Pick(2, 3, 3, 1, 2)
+	variant := c.g.Pick(2, 3, 3, 1, 2, 2, 2)
 	want := true
 	g1 := adj
 	switch variant {
+	case 5:
+		// the only difference sits in one of the last three nodes (the far end of a
+		// possibly very large graph must be compared too)
+		u := n - 1 - c.g.Intn(minInt(3, n))
+		if len(other[u]) == 0 {
+			other[u] = []int{c.g.Intn(n)}
+		} else {
+			e := c.g.Intn(len(other[u]))
+			other[u][e] = (other[u][e] + 1 + c.g.Intn(maxInt(n-1, 1))) % n
+		}
+		want = refmodel.SameMultiset(adj[u], other[u])
+	case 6:
+		// equal length, same SET of targets, different multiplicities (and shuffled)
+		var cands []int
+		for u := range other {
+			if len(other[u]) >= 3 {
+				cands = append(cands, u)
+			}
+		}
+		if len(cands) == 0 {
+			variant = 0
+			break
+		}
+		u := cands[c.g.Intn(len(cands))]
+		a, b := c.g.Intn(len(other[u])), c.g.Intn(len(other[u]))
+		other[u][a] = other[u][b] // one target replaced by another that is already present
+		p := c.g.Perm(len(other[u]))
+		src := append([]int(nil), other[u]...)
+		for i, pi := range p {
+			other[u][i] = src[pi]
+		}
+		want = refmodel.SameMultiset(adj[u], other[u])
 	case 4:
 		// two different multisets with equal length, sum, sum of squares (and for
 		// the longer pairs sum of cubes): what an order-independent checksum
@@ -1015,4 +1065,18 @@ func (c *ctx) equal(adj refmodel.Adj) {
 	if got != want {
 		c.fail("equal", "Equal", fmt.Sprintf("variant%d", variant), "Equal=%v, adjacency lists compared as multisets: %v", got, want)
 	}
+}
+
+func minInt(a, b int) int {
+	if a < b {
+		return a
+	}
+	return b
+}
+
+func maxInt(a, b int) int {
+	if a > b {
+		return a
+	}
+	return b
 }
